@@ -1745,3 +1745,29 @@ func singleStoredValue(a *ssa.Alloc) ssa.Value {
 	}
 	return nil
 }
+
+// loopExitsAfter: every edge leaving the loop headed by h, other than the header's own condition exit, starts in a
+// block dominated by the block of `must` (the loop is left early only after `must` has run in that iteration).
+func loopExitsAfter(h *ssa.BasicBlock, must ssa.Instruction) (bool, string) {
+	fn := h.Parent()
+	inLoop := map[*ssa.BasicBlock]bool{}
+	for _, b := range fn.Blocks {
+		if h.Dominates(b) && (b == h || reaches(b, h, nil)) {
+			inLoop[b] = true
+		}
+	}
+	if !inLoop[must.Block()] {
+		return false, "the required call is not inside the loop"
+	}
+	for b := range inLoop {
+		for _, s := range b.Succs {
+			if inLoop[s] || b == h {
+				continue
+			}
+			if !must.Block().Dominates(b) {
+				return false, fmt.Sprintf("block %d leaves the loop without passing the required call", b.Index)
+			}
+		}
+	}
+	return true, ""
+}
